@@ -221,3 +221,48 @@ def _mk_between_ldt(mask: int) -> None:
 
 for _mask in (8, 4, 16, 512, 8 | 16, 8 | 512, 4 | 8 | 64, 1, 2, 1 | 2 | 8, 1 | 2 | 8 | 16 | 512):
     _mk_between_ldt(_mask)
+
+
+# ------------------------------------------------------------------------------------------------- Period.normalize / to_duration
+from .gens import PeriodG  # noqa: E402
+
+_NAMES = ("years", "months", "weeks", "days", "hours", "minutes", "seconds", "milliseconds", "ticks", "nanoseconds")
+
+
+def _total_ns(p):
+    return (
+        V.per(p, "nanoseconds")
+        + V.per(p, "ticks") * V.NPT
+        + V.per(p, "milliseconds") * V.NPMS
+        + V.per(p, "seconds") * V.NPS
+        + V.per(p, "minutes") * V.NPM
+        + V.per(p, "hours") * V.NPH
+        + V.per(p, "days") * V.NPD
+        + V.per(p, "weeks") * 7 * V.NPD
+    )
+
+
+@contract(P + "normalize", "C09", name="Period.normalize: same years/months and same total length; weeks and ticks become 0; every unit in its natural range; one sign")
+def _(c):
+    c.arg("self", PeriodG(-(10**12), 10**12))
+    c.timeout_s = 300
+    c.vc_chunks = 4
+    units = ("days", "hours", "minutes", "seconds", "milliseconds", "nanoseconds")
+    g = lambda r, n: V.per(r, n)  # noqa: E731
+    c.returns(lambda a, r: And(g(r, "years") == V.per(a.self, "years"), g(r, "months") == V.per(a.self, "months"), g(r, "weeks") == 0, g(r, "ticks") == 0), label="kept-and-cleared")
+    c.returns(lambda a, r: _total_ns(r) == _total_ns(a.self), label="same-total")
+    c.returns(lambda a, r: Implies(_total_ns(a.self) >= 0, And(*[g(r, u) >= 0 for u in units])), label="sign-positive")
+    c.returns(lambda a, r: Implies(_total_ns(a.self) <= 0, And(*[g(r, u) <= 0 for u in units])), label="sign-negative")
+    c.returns(
+        lambda a, r: And(g(r, "hours") > -24, g(r, "hours") < 24, g(r, "minutes") > -60, g(r, "minutes") < 60, g(r, "seconds") > -60, g(r, "seconds") < 60, g(r, "milliseconds") > -1000, g(r, "milliseconds") < 1000, g(r, "nanoseconds") > -V.NPMS, g(r, "nanoseconds") < V.NPMS),
+        label="natural-ranges",
+    )
+
+
+@contract(P + "to_duration", "C09", name="Period.to_duration: the total length of the fixed-length units; refused when years or months are present")
+def _(c):
+    c.arg("self", PeriodG(-(10**12), 10**12))
+    has_ym = lambda a: Or(V.per(a.self, "years") != 0, V.per(a.self, "months") != 0)  # noqa: E731
+    c.returns(lambda a, r: V.is_duration_of(r, _total_ns(a.self)), when=lambda a: And(Not(has_ym(a)), V.dur_in_range(_total_ns(a.self))))
+    c.raises(RuntimeError, when=has_ym)
+    c.raises(OverflowError, ValueError, when=lambda a: And(Not(has_ym(a)), Not(V.dur_in_range(_total_ns(a.self)))))
